@@ -4,7 +4,7 @@
    spec_case : what the implementation did satisfies the property's specification, judged
                directly on the observed values (no model function decides the verdict, except the
                shared parsers of an address / a response scope where noted). *)
-From Sdns Require Export Common.Base Common.GoList Gen.C19 C19.Model C19.WireOpt C19.WireReq C19.WirePacket.
+From Sdns Require Export Common.Base Common.GoList Gen.C19 C19.Model C19.WireOpt C19.WireReq C19.WirePacket C19.Exit.
 Open Scope N_scope.
 
 Inductive case :=
@@ -50,7 +50,13 @@ Inductive case :=
 | CaseDenialWire (b : bargs) (t : rtree) (seen : list (N * bool))
   (* a query (remote, options of its OPT, wire-born?) for a name whose resolution failure is cached under
      the SHARED failure key with the query's own CD bit: was it answered from that entry? *)
-| CaseFailure (b : bargs) (remote : ipb) (opts : option (list eopt)) (wire : bool) (consumed : bool).
+| CaseFailure (b : bargs) (remote : ipb) (opts : option (list eopt)) (wire : bool) (consumed : bool)
+  (* a client query (remote, additional section, CD) through the real chain [edns, forwarder] against
+     scripted upstreams on loopback sockets (behaviour codes, in configured order): every query the
+     upstreams RECEIVED, in arrival order (position of the upstream, TCP?, CD, additional section as
+     the wire carried it), and the subnet options per OPT record of the reply the client got *)
+| CaseExitFwd (b : bargs) (remote : ipb) (dnssec cd : bool) (extra : list rr) (ups : list N)
+              (sent : list wire_query) (reply : list N).
 
 (* ------------------------------------------------------------------ equality *)
 Definition ipb_eqb (a b : ipb) : bool := (ipb_len a =? ipb_len b) && (ipb_val a =? ipb_val b).
@@ -86,6 +92,9 @@ Definition build_result_eqb (a b : build_result) : bool :=
   | BuildOk x, BuildOk y => policy_eqb x y
   | _, _ => false
   end.
+Definition wq_eqb (a b : wire_query) : bool :=
+  (wq_server a =? wq_server b) && Bool.eqb (wq_tcp a) (wq_tcp b) && Bool.eqb (wq_cd a) (wq_cd b) &&
+  list_eqb rr_eqb (wq_extra a) (wq_extra b).
 Definition dperm_eqb (a b : dperm) : bool :=
   Bool.eqb (dp_cut a) (dp_cut b) && Bool.eqb (dp_proof a) (dp_proof b) && Bool.eqb (dp_create a) (dp_create b).
 Definition obs_eqb (a b : obs) : bool :=
@@ -174,6 +183,9 @@ Definition check_case (c : case) : bool :=
       Bool.eqb consumed
         ((wire && wire_failure_gate true (match opts with Some l => has_ecs l | None => false end)) ||
          failure_consults_shared (policy_of b) remote opts)
+  | CaseExitFwd b remote dnssec cd extra ups sent reply =>
+      list_eqb wq_eqb (exit_forwarder b remote dnssec cd extra ups) sent &&
+      list_eqb N.eqb (exit_reply_counts b remote extra) reply
   end.
 
 (* ------------------------------------------------------------------ specification oracles *)
@@ -475,4 +487,11 @@ Definition spec_case (c : case) : bool :=
                                   end) l)
       | _, _ => true
       end
+  | CaseExitFwd b remote dnssec cd extra ups sent reply =>
+      (* what any upstream received obeys the privacy rule for an upstream-bound request — judged on the
+         octets that arrived, not on what a handler inside the process saw — and carries one OPT; the
+         client's reply has no subnet option *)
+      forallb (fun q => upstream_ok (policy_of b) (addr_from_slice_unmap remote) extra (wq_extra q) &&
+                        (count_opt (wq_extra q) =? 1)%nat) sent &&
+      forallb (fun n => n =? 0) reply && (length reply <=? 1)%nat
   end.
